@@ -198,6 +198,7 @@ def generator_rules(cfg, R):
         R.violation('G4', 'tzdb.transformer.Transformer.transform', tf.loc, 'transform() does not call _detect_hash_collisions')
     symbol_guard_rule(R, tr)
     link_target_rule(R, ar)
+    link_source_rules(cfg, R, tr)
     df = tr.fn('Transformer._detect_hash_collisions')
     R.instance('G4', 'tzdb.transformer.Transformer._detect_hash_collisions', df.loc)
     msg = check_collision_detector(df)
@@ -275,6 +276,67 @@ def link_target_rule(R, ar):
         if not ok:
             R.violation('G6', c, ar.loc(lp), 'link items are generated without looking the target %s up in self.zones_map: a link whose target zone was removed '
                         'after the links were pruned is emitted bound to whatever zone owns the symbol kZone<normalize_name(target)>' % tgt)
+
+
+def link_source_rules(cfg, R, tr):
+    """Where a link gets its target on the way into the tables.
+    G7: the extractor stores a link only when its name has exactly one definition (a name defined twice with two targets
+        has no single target to denote).
+    G8: remove_links_to_missing_zones tests the link's own target against the zone table - it does not follow the target
+        through the link table (a name that is both a Zone and a Link is resolved in favour of the Zone later on, so
+        following links first binds the link to a different zone)."""
+    ex = py.load(cfg, 'tools/tzdb/extractor.py')
+    R.rule('G7', 'the extractor stores a link target only for a link name with exactly one definition', floor=1)
+    f = ex.fn('Extractor._process_links')
+    stores = [x for x in ast.walk(f.node) if isinstance(x, ast.Assign) and isinstance(x.targets[0], ast.Subscript) and 'links_map' in ast.unparse(x.targets[0].value)]
+    c = 'tzdb.extractor.Extractor._process_links:store'
+    if not stores:
+        raise AnalysisError('%s: no store into links_map (anchor moved)' % f.loc)
+    parents = {}
+    for p in ast.walk(f.node):
+        for ch in ast.iter_child_nodes(p):
+            parents[ch] = p
+    for st in stores:
+        R.instance('G7', c, ex.loc(st))
+        ok = False
+        cur = st
+        while cur in parents:
+            par = parents[cur]
+            if isinstance(par, ast.If) and 'len(lines)' in ast.unparse(par.test) and isinstance(par.test, ast.Compare) and len(par.test.ops) == 1:
+                op, k = par.test.ops[0], par.test.comparators[0]
+                kv = k.value if isinstance(k, ast.Constant) else None
+                in_body = cur in par.body
+                # the store must sit where len(lines) == 1 is implied
+                single_in_body = (isinstance(op, ast.Eq) and kv == 1) or (isinstance(op, ast.LtE) and kv == 1) or (isinstance(op, ast.Lt) and kv == 2)
+                single_in_else = (isinstance(op, ast.Gt) and kv == 1) or (isinstance(op, ast.GtE) and kv == 2) or (isinstance(op, ast.NotEq) and kv == 1)
+                ok = (in_body and single_in_body) or (not in_body and single_in_else)
+            cur = par
+        if not ok:
+            R.violation('G7', c, ex.loc(st), 'links_map[link_name] is filled from lines[0] also when the link name has several definitions: the link is emitted bound to its '
+                        'first target although the source names another one as well')
+    R.rule('G8', 'links to missing zones are detected on the link target itself, not on a target resolved through other links', floor=1)
+    g = tr.fn('Transformer.remove_links_to_missing_zones')
+    c8 = 'tzdb.transformer.Transformer.remove_links_to_missing_zones'
+    R.instance('G8', c8, g.loc)
+    for x in ast.walk(g.node):
+        if isinstance(x, ast.Assign) and isinstance(x.targets[0], ast.Name) and any(
+                isinstance(y, (ast.Call, ast.Subscript)) and 'links_map' in ast.unparse(y) for y in ast.walk(x.value)):
+            tgt = x.targets[0].id
+            loops = [lp for lp in ast.walk(g.node) if isinstance(lp, ast.For) and isinstance(lp.target, ast.Tuple) and any(isinstance(e, ast.Name) and e.id == tgt for e in lp.target.elts)]
+            gpar = {}
+            for p_ in ast.walk(g.node):
+                for ch in ast.iter_child_nodes(p_):
+                    gpar[ch] = p_
+            guarded = False
+            cur = x
+            while cur in gpar:
+                par = gpar[cur]
+                if isinstance(par, ast.If) and 'zones_map' in ast.unparse(par.test) and tgt in ast.unparse(par.test):
+                    guarded = True      # the Zone table is consulted first; links are followed only for a target that is not a Zone
+                cur = par
+            if loops and not guarded:
+                R.violation('G8', c8, tr.loc(x), 'the loop variable %s (the link\'s target) is re-bound through links_map before it is tested against the zones: a name that is both a '
+                            'Zone and a Link then stands for the other link\'s target' % tgt)
 
 
 def _stmt_exprs(s):
@@ -424,6 +486,12 @@ SELFTEST = [
     dict(id='collision-membership-spelling-silent', file='tools/tzdb/transformer.py', regex=True,
          find=r'            colliding_name = hashes.get\(h\)\n            if colliding_name:\n(                raise Exception\("Hash collision[^\n]*\n)            else:\n                hashes\[h\] = name',
          replace=r'            if h in hashes:\n\1            hashes[h] = name', expect='silent'),
+    dict(id='duplicate-link-stored', file='tools/tzdb/extractor.py', find='                self.invalid_link_lines += len(lines)\n            else:\n                self.links_map[link_name] = lines[0]',
+         replace='                self.invalid_link_lines += len(lines)\n            self.links_map[link_name] = lines[0]', rule='G7'),
+    dict(id='link-target-through-links-first', file='tools/tzdb/transformer.py', find='        for link_name, zone_name in links_map.items():\n            if zones_map.get(zone_name):',
+         replace='        for link_name, zone_name in links_map.items():\n            zone_name = links_map.get(zone_name, zone_name)\n            if zones_map.get(zone_name):', rule='G8'),
+    dict(id='link-chain-after-zone-test-silent', file='tools/tzdb/transformer.py', find='        for link_name, zone_name in links_map.items():\n            if zones_map.get(zone_name):',
+         replace='        for link_name, zone_name in links_map.items():\n            if not zones_map.get(zone_name):\n                zone_name = links_map.get(zone_name, zone_name)\n            if zones_map.get(zone_name):', expect='silent'),
     dict(id='link-target-lookup-deleted', file='tools/zonedb/argenerator.py', find='            eras = self.zones_map[zone_name]\n            link_items += self._generate_link_item(link_name, zone_name)',
          replace='            link_items += self._generate_link_item(link_name, zone_name)', rule='G6'),
     dict(id='link-target-membership-test-silent', file='tools/zonedb/argenerator.py', find='            eras = self.zones_map[zone_name]\n            link_items += self._generate_link_item(link_name, zone_name)',
